@@ -64,6 +64,14 @@ def stage_error_map(ctx, f, g, name, tag, depth=0):
             for e in p.events:
                 if e.kind == "call" and e.depth == 0 and (e.fn, e.bb) in inl and e.ret is not None and sym.contains(last[0], lambda x: x == e.ret):
                     inline_role = inl[(e.fn, e.bb)]
+            if inline_role is None:
+                # ... or stored and then range-tested in place
+                for e in p.events:
+                    if e.kind == "assign" and e.depth == 0 and e.args[0][0] not in ("int", "bbconst") and sym.contains(last[0], lambda x: x == e.args[0]):
+                        if e.name == g.fld["halfmove_clock"]:
+                            inline_role = "half"
+                        elif e.name == g.fld["fullmove_number"]:
+                            inline_role = "full"
         if ev[0] == "enum":
             variant = ev[2]
         elif ev[0] == "errconv" and ev[1][0] == "enum" and b.locals[0]["ty"].endswith(", %s>" % ev[1][1]):
@@ -115,6 +123,12 @@ def run(ctx):
                     out.add(cn)
         return out
     a, b_ = validators_called(B + "::from_fen"), validators_called(BUILDER + "::build")
+    # a clock may also be validated by a range test on the stored value (the gate rule above established it for both
+    # constructors): the functions need to coincide only where a function is what validates
+    for r_, (lo_, hi_, ty_) in gatemod.CLOCK_RANGE.items():
+        if r_ in vp and r_ in vb:
+            a = {x for x in a if g.validator_role(x) != r_}
+            b_ = {x for x in b_ if g.validator_role(x) != r_}
     ctx.check(a == b_, "same-validator-functions", "the constructors call different validator functions: only parser %s, only builder %s"
               % (sorted(x.rsplit("::", 1)[-1] for x in a - b_), sorted(x.rsplit("::", 1)[-1] for x in b_ - a)),
               sample={"validators": sorted(x.rsplit("::", 1)[-1] for x in a)})
